@@ -17,6 +17,11 @@ pool members.  Operations (an inapplicable one is skipped):
   ["choose"|"choose_copy"|"filter_packages"|"filter_packages_copy", i, pkgs]
                                                  choose*: pkgs may name packages the target does not
                                                  have (choose_copy: see Interp.choose_copy)
+  ["choose"|"choose_copy", i, pkgs, [kind, r]]   the names handed over as ``kind`` says: list | tuple | set |
+                                                 frozenset | dictkeys | gen | iter | map (package_iter is an
+                                                 Iterable[str]; the last three can be walked once), in sorted
+                                                 order rotated by r, backwards for r < 0 (Interp.handing);
+                                                 without the element: a sorted list
   ["filter_packages_tags"|"filter_packages_tags_copy", i, pkgs, tags]   keeps (p, ts) with p in pkgs or ts & tags
   ["filter_tags"|"filter_tags_copy", i, tags]
                                                  every pkgs / tags above: a list of names, or - relative to what
@@ -31,6 +36,8 @@ pool members.  Operations (an inapplicable one is skipped):
                                                  {"big": ...} as for init; the history then goes on using it
   ["mquery", i, names]                           packages_of_tags / tags_of_packages / ideal_tagset, each with
                                                  every rotation of the non-empty name list (see do_mquery)
+  ["mquery", i, names, kind]                     ... the two Iterable[str] queries handed each rotation as ``kind``
+                                                 (as above), ideal_tagset a tuple for "tuple", else a list
   ["qio", i, [j, k], "fresh"|"reuse"|"into"]     qwrite() of members i, j, k one after another into one
                                                  in-memory file, qread() back in the same order (see do_qio)
 
@@ -118,6 +125,10 @@ RULE = ("cases are histories [init lines, tag filter, op list] over a pool of da
         "qread() or read() of another collection, a failing read(); D of member 0 again; nothing / insert into the "
         "second answer / insert into member 0] for 36 derivations (the 4 plain ones; each of the 8 choices / filters "
         "keeping everything, nothing, all but the first, all but the last key) x 4 spellings of the two calls; "
+        "enumerated argument forms: 5920 histories [choose_packages(_copy) of the collection / a reverse() view / "
+        "after an insert / a filter_packages view, the names (all, all but one, some absent, none) as list, tuple, "
+        "set, frozenset, dict keys view, generator, iter(list), map in 3 orders, then nothing / an insert; the "
+        "multi-name queries in each form], both spellings; "
         "enumerated boundary filters: 32256 histories [one of those 32 choices / filters + every op sequence of "
         "length 1..2 over 4 inserts, reverse, copy, facet_collection, filter_tags / filter_packages keeping "
         "everything x targets], both spellings; after every insert every live database is looked at "
@@ -128,7 +139,8 @@ RULE = ("cases are histories [init lines, tag filter, op list] over a pool of da
         "names sharing 6 facets (+ w::i:r and, in about a tenth of the lines and inserts, the odd tags), "
         "optional tag_filter, 1..12 operations (thorough: 1..20) = inserts, "
         "all 12 derivations (choose_packages_copy also with names the collection lacks; about a fifth of the "
-        "selections relative to the target: every key, none, all but one), every read() "
+        "selections relative to the target: every key, none, all but one; choose_packages(_copy) given its names "
+        "in one of the 8 forms and 7 orders, the multi-name queries in one of the 8 forms), every read() "
         "in one of the four input forms, a third of the steps through the deprecated aliases, "
         "further read()s into the pool and into existing members, read()s that fail midway (input or tag_filter "
         "raises at position 0..7; into a member or a new DB) with the history going on afterwards, multi-name "
@@ -172,6 +184,14 @@ ASSUMPTIONS = [
     "qwrite, qread, card, discriminance have no alias and are called as they are in an 'old:' step",
     "choose_packages_copy given a name the collection lacks: KeyError (then nothing was derived) or the "
     "restriction to the names it has are both accepted; in either case every database is unchanged",
+    "an argument documented as Iterable[str] (choose_packages, choose_packages_copy, packages_of_tags, "
+    "tags_of_packages and their aliases) may be any of list, tuple, set, frozenset, dict keys view, generator, "
+    "iter(list), map(str, list) in any order, and the answer does not depend on which (an object that can be "
+    "walked again still holds its names afterwards; nothing is demanded about how far a one-shot iterator was "
+    "walked); NOT varied: insert's tags (documented Set[str]: the method calls tags.copy(); a list / dict would be "
+    "stored as it is, a frozenset breaks a later insert through a reverse() view, views and iterators have no "
+    "copy()) - always a set; ideal_tagset (documented List[str], sliced and measured) - list or tuple only; the "
+    "filter_* methods take predicates, not collections",
     "read() input forms: iterator of lines, list of lines, io.StringIO, text file written with "
     "encoding utf-8/newline='' into a per-read mkdtemp() (under /dev/shm when available) and opened with "
     "open(path, 'r', encoding='utf-8'); each element/line ends with '\\n' except optionally the last",
@@ -186,12 +206,14 @@ EXHAUSTIVE = {
              "histories (prefix x failure kind x position x target x follow-up op x spelling, see FAIL_DESC); "
              "1806 op sequences of length 1..2 on the odd-tag collection (ODD_DESC); 4752 repeated derivations "
              "(36 derivations x 11 routes to the data in between x 4 spellings x 3 follow-ups, REPEAT_DESC); 32256 "
-             "histories after a choice / filter keeping everything / nothing / all but one (KEEP_DESC)",
+             "histories after a choice / filter keeping everything / nothing / all but one (KEEP_DESC); 5920 "
+             "histories handing choose_packages(_copy) and the multi-name queries their names in 8 forms x 3 orders "
+             "(FORM_DESC)",
     "thorough": "all op sequences of length 1..3 over the 19-op alphabet x both spellings and of length 1..4 over "
                 "its first 17 ops "
                 "(snake_case; no multi-name queries / pickle round trip) x target index 0..position on the fixed "
-                "collection; the 72 long-text read()s of the quick tier; the failed-read, odd-tag, repeated-derivation "
-                "and boundary-filter enumerations of the quick tier",
+                "collection; the 72 long-text read()s of the quick tier; the failed-read, odd-tag, repeated-derivation, "
+                "boundary-filter and argument-form enumerations of the quick tier",
 }
 BUDGET = {"quick": 200, "thorough": 1500}
 
@@ -222,6 +244,10 @@ FORMS = ("iter", "list", "stringio", "file")     # how read() is handed its text
 NAME_OK = re.compile(r"[^\s,:]+\Z")      # what a line of the text format can carry as a package
 TAG_OK = re.compile(r"[^\s,]+\Z")
 ABSENT = ["zz-absent", "a", "f::a"]
+# how a method that takes a collection of names (Iterable[str]) is handed them; the last three can
+# be walked once only
+ARG_FORMS = ("list", "tuple", "set", "frozenset", "dictkeys", "gen", "iter", "map")
+ONE_SHOT = ("gen", "iter", "map")
 HOWS = ("input", "filter")               # what makes a read() fail: its input / its tag_filter raises
 TAGS = ["f::a", "f::b", "f::c", "g::a", "g::b", "h::x::y", "h::x::z", "role::p", "role::q", "u::a"]
 HOT = TAGS[:4]
@@ -249,6 +275,57 @@ SCRATCH = _scratch_parent()
 
 def strs(x):
     return [s for s in x if isinstance(s, str) and s] if isinstance(x, list) else []
+
+
+def argform(x):
+    """(kind, r) of the optional argument-form element of an op: a kind of ARG_FORMS or [kind, r];
+    anything else = (None, 0), the sorted list every such call was given before."""
+    kind, r = (x[0], x[1]) if isinstance(x, list) and len(x) == 2 else (x, 0)
+    if not (isinstance(kind, str) and kind in ARG_FORMS):
+        kind = None
+    return kind, (r if isinstance(r, int) and not isinstance(r, bool) else 0)
+
+
+def arranged(names, r):
+    """The order the names are presented in: sorted, for r < 0 backwards, rotated by r (-r-1) places."""
+    seq = sorted(names)
+    if seq and r:
+        if r < 0:
+            seq.reverse()
+            r = -r - 1
+        r %= len(seq)
+        seq = seq[r:] + seq[:r]
+    return seq
+
+
+def as_form(seq, kind):
+    """A new object of the given kind holding the names of ``seq`` (in that order where the kind
+    has one)."""
+    if kind == "tuple":
+        return tuple(seq)
+    if kind == "set":
+        return set(seq)
+    if kind == "frozenset":
+        return frozenset(seq)
+    if kind == "dictkeys":
+        return dict.fromkeys(seq).keys()
+    if kind == "gen":
+        return (x for x in list(seq))
+    if kind == "iter":
+        return iter(list(seq))
+    if kind == "map":
+        return map(str, list(seq))
+    return list(seq)
+
+
+def still_holds(given, seq, kind):
+    """A collection handed to a method still holds what it held (nothing is said about how far
+    a one-shot iterator has been walked)."""
+    if kind in ONE_SHOT:
+        return True
+    if kind in ("set", "frozenset"):
+        return len(given) == len(set(seq)) and set(given) == set(seq)
+    return list(given) == list(seq)
 
 
 # ------------------------------------------------------------------------------------------
@@ -697,7 +774,7 @@ class Interp(object):
                 raise Violation(sig, "%s on %s changed %s: %s" % (
                     opname, actor.name(), "itself" if o is actor else o.name(), rel.diff(obs, o.S)))
 
-    def do_mquery(self, e, names, old=False):
+    def do_mquery(self, e, names, old=False, form=None):
         """The multi-name queries packages_of_tags / tags_of_packages / ideal_tagset, each called
         with every rotation of the (non-empty, duplicate-free) name list, so that every name is the
         first argument once.  What is demanded: they are *queries* - afterwards every database of
@@ -706,7 +783,11 @@ class Interp(object):
         passes); ideal_tagset returns the set of a non-empty prefix of its argument ("taken in
         consecutive sequence from the beginning", "always at least the first tag").
         With ``old`` all of this is asked of the deprecated aliases packagesOfTags /
-        tagsOfPackages / idealTagset."""
+        tagsOfPackages / idealTagset.  ``form`` (a kind of ARG_FORMS): how packages_of_tags /
+        tags_of_packages (Iterable[str]) are handed every rotation of the names - see as_form();
+        ideal_tagset, which takes a list ("vector": it is sliced), gets a tuple for "tuple" and a
+        list otherwise."""
+        kind, _ = argform(form)
         names = [n for i, n in enumerate(strs(names)) if n not in strs(names)[:i]][:6]
         if not names:
             self.labels.add("note:mquery-skipped-empty-list")
@@ -723,8 +804,10 @@ class Interp(object):
         for r in range(len(names)):
             arg = names[r:] + names[:r]
             for method, side in (("packages_of_tags", S.rev), ("tags_of_packages", S.fwd)):
-                given = list(arg)
+                given = as_form(arg, kind)
                 got = meth(e.db, method, old, self.labels)(given)
+                if kind:
+                    self.labels.add("arg:%s/%s" % (method, kind))
                 if old:
                     method = ALIAS[method]
                 if not (isinstance(got, (set, frozenset)) and all(isinstance(x, str) for x in got)):
@@ -737,18 +820,20 @@ class Interp(object):
                                     "members %s and all members %s of the single answers" % (
                                         e.name(), method, arg, short(sorted(got), 120),
                                         sorted(lo), sorted(hi)))
-                if given != arg:
+                if not still_holds(given, arg, kind):
                     raise Violation("query:" + method, "%s(%s) left its argument as %s" % (
                         method, arg, short(given, 120)))
                 self.verify_all(e, "%s(%s)" % (method, arg), method + "-changes-collection")
-            given = list(arg)
+            given = tuple(arg) if kind == "tuple" else list(arg)
+            if kind == "tuple":
+                self.labels.add("arg:ideal_tagset/tuple")
             ideal = ALIAS["ideal_tagset"] if old else "ideal_tagset"
             got = meth(e.db, "ideal_tagset", old, self.labels)(given)
             if not (isinstance(got, (set, frozenset))
                     and any(set(got) == set(arg[:k]) for k in range(1, len(arg) + 1))):
                 raise Violation("query:" + ideal, "%s: %s(%s) = %s, not a non-empty "
                                 "prefix of the argument" % (e.name(), ideal, arg, short(got, 120)))
-            if given != arg:
+            if list(given) != arg:
                 raise Violation("query:" + ideal, "%s(%s) left its argument as %s" % (
                     ideal, arg, short(given, 120)))
             self.verify_all(e, "%s(%s)" % (ideal, arg), ideal + "-changes-collection")
@@ -942,11 +1027,11 @@ class Interp(object):
         elif op in ("choose", "choose_copy", "filter_packages", "filter_packages_copy"):
             sel = self.selection(a, S.fwd)
             if op == "choose":
-                nd = call("choose_packages")(sorted(sel))
+                nd = self.handing(e, "choose_packages", call("choose_packages"), sel, b)
                 if sel - set(S.fwd):
                     self.labels.add("choose-with-missing-package")
             elif op == "choose_copy":
-                nd = self.choose_copy(e, sel, call("choose_packages_copy"))
+                nd = self.choose_copy(e, sel, call("choose_packages_copy"), b)
             elif op == "filter_packages":
                 nd = call("filter_packages")(lambda p: p in sel)
             else:
@@ -1063,24 +1148,48 @@ class Interp(object):
                     origin, p, sorted(S.fwd[p]), sorted(obs.fwd[p])))
         return obs.fwd
 
-    def choose_copy(self, e, sel, choose_packages_copy):
+    def handing(self, e, method, fn, names, form):
+        """fn(<the names as ``form`` says>): package_iter is an Iterable[str], so the same names are
+        handed over as a list, a tuple, a set, a frozenset, the keys view of a dict, a generator,
+        iter(list) or map(str, list) - a new object per call, in the order arranged() gives (one
+        that is usually not the order the database iterates in) - and the same result is demanded
+        whatever the form.  An object that can be walked again still holds what it held."""
+        kind, r = argform(form)
+        seq = arranged(names, r)
+        given = as_form(seq, kind)
+        res = fn(given)
+        if not still_holds(given, seq, kind):
+            raise Violation(method + "-changes-argument", "%s(%s of %s) left its argument as %s" % (
+                method, kind or "list", seq, short(given, 120)))
+        if kind:
+            self.labels.add("arg:%s/%s" % (method, kind))
+            have = [n for n in seq if n in e.S.fwd]
+            if len(have) >= 2:
+                self.labels.add("arg:2+-names-of-the-collection/" + ("walked-once" if kind in ONE_SHOT else
+                                                                     "unordered" if "set" in kind else "ordered"))
+                if kind not in ("set", "frozenset") and have != [p for p in e.db.iter_packages() if p in have]:
+                    self.labels.add("arg:names-not-in-the-order-of-the-collection"
+                                    + ("/walked-once" if kind in ONE_SHOT else ""))
+        return res
+
+    def choose_copy(self, e, sel, choose_packages_copy, form=None):
         """choose_packages_copy has no "if pkg in self.db": when some of the names are not
         packages of the collection the call either fails with KeyError - then nothing was derived
         and every database is as before, and the names the collection does have are chosen in a
         second call - or it returns the restriction to the names it has (what choose_packages
-        does).  It never changes the collection it is asked of."""
-        have = sorted(sel & set(e.S.fwd))
+        does).  It never changes the collection it is asked of.  ``form``: see handing()."""
+        have = sel & set(e.S.fwd)
         if not sel - set(e.S.fwd):
-            return choose_packages_copy(have)
+            return self.handing(e, "choose_packages_copy", choose_packages_copy, have, form)
         self.labels.add("choose_copy-with-missing-package")
         try:
-            nd = choose_packages_copy(sorted(sel))
+            nd = self.handing(e, "choose_packages_copy", choose_packages_copy, sel, form)
         except KeyError:
             nd = None
             self.labels.add("choose_copy-with-missing-package:KeyError")
         self.verify_all(e, "choose_packages_copy(%s)" % sorted(sel),
                         "choose_packages_copy-unknown-name-changes-collection")
-        return choose_packages_copy(have) if nd is None else nd
+        return self.handing(e, "choose_packages_copy", choose_packages_copy, have, form) if nd is None else nd
 
     def step(self, op):
         """Apply one op; returns the Entry created, True for an executed insert, else None."""
@@ -1121,7 +1230,7 @@ class Interp(object):
         if name == "insert":
             return self.do_insert(self.target(arg(1)), arg(2), arg(3), old) or None
         if name == "mquery":
-            return self.do_mquery(self.target(arg(1)), arg(2), old)
+            return self.do_mquery(self.target(arg(1)), arg(2), old, arg(3))
         if name == "qio":
             return self.do_qio(self.target(arg(1)), arg(2), arg(3), old)
         if name in SHARING or name in COPYING:
@@ -1344,6 +1453,35 @@ def keep_cases():
                                    "ops": one + [[mark + o2[0], j] + o2[1:]]}
 
 
+# the same names handed over in every form an Iterable[str] can take, in three orders
+FORM_PRE = [([], 0), ([["reverse", 0]], 0), ([["reverse", 0]], 1),
+            ([["insert", 0, "a", ["f::a", "k::n"]]], 0), ([["filter_packages", 0, ALL_BUT]], 1)]
+FORM_SELS = [ALL, ALL_BUT, ["p", "s", "zz", "f::a", "h::c", "a"], []]
+FORM_NAMES = [["f::a", "p", "zz", "g::b", "s"], ["q", "h::c"]]
+FORM_DESC = ("choose_packages / choose_packages_copy of [the fixed collection | its reverse() view | the collection "
+             "with a reverse() view alive | after an insert | a filter_packages view] with [every key | all but the "
+             "first | six names, some absent | no name] handed over as each of %d forms (%s) in 3 orders (sorted, "
+             "backwards, rotated by one) x both spellings x [nothing | insert into the answer | insert into the "
+             "database asked]; the multi-name queries of the same five databases with 2 name lists in each form, both "
+             "spellings" % (len(ARG_FORMS), ", ".join(ARG_FORMS)))
+
+
+def form_cases():
+    for mark in ("", OLD):
+        for pre, tgt in FORM_PRE:
+            head = [[mark + o[0]] + o[1:] for o in pre]
+            for kind in ARG_FORMS:
+                for names in FORM_NAMES:
+                    yield {"kind": "history", "init": ENUM_INIT, "filter": None,
+                           "ops": head + [[mark + "mquery", tgt, names, kind]]}
+                for op in ("choose", "choose_copy"):
+                    for sel in FORM_SELS:
+                        for r in (0, -1, 1):
+                            for after in REPEAT_AFTER:
+                                yield {"kind": "history", "init": ENUM_INIT, "filter": None,
+                                       "ops": head + [[mark + op, tgt, sel, [kind, r]]] + [list(o) for o in after]}
+
+
 # read() of long texts: (characters, block size) x offset of the aligned newlines x input form x
 # last line with/without newline; each followed by a copy-derivation and an insert
 BIG_SHAPES = [(3000, 512), (70000, 4096), (140000, 65536)]
@@ -1429,8 +1567,10 @@ tsel = st.one_of(subset(TAGS, 6), subset(HOT, 3, 1), subset(TAGS, 8, 2),
 op_insert = st.tuples(st.just("insert"), IDX, ins_pkg, ins_tags)
 op_d0 = st.tuples(st.sampled_from(["reverse", "reverse_copy", "copy"]), IDX)
 op_facet = st.tuples(st.just("facet"), IDX)
-op_d1 = st.tuples(st.sampled_from(["choose", "choose_copy", "filter_packages", "filter_packages_copy"]),
-                  IDX, psel)
+# how choose_packages(_copy) get their names: the form and the order (see Interp.handing)
+argf = st.tuples(st.sampled_from(ARG_FORMS), st.integers(-3, 3))
+op_d1 = st.tuples(st.sampled_from(["choose", "choose_copy", "choose", "choose_copy",
+                                   "filter_packages", "filter_packages_copy"]), IDX, psel, argf)
 op_d2 = st.tuples(st.sampled_from(["filter_packages_tags", "filter_packages_tags_copy"]), IDX,
                   st.one_of(st.lists(st.one_of(ANY, st.sampled_from(TAGS)), max_size=3), keepsel), tsel)
 op_d3 = st.tuples(st.sampled_from(["filter_tags", "filter_tags_copy"]), IDX, tsel)
@@ -1441,7 +1581,7 @@ op_failread = st.tuples(st.just("failread"), st.one_of(IDX, IDX, IDX, st.none())
                         form, st.integers(0, 7), st.sampled_from(HOWS))
 op_mquery = st.tuples(st.just("mquery"), IDX,
                       st.lists(st.one_of(ANY, ANY, st.sampled_from(HOT), st.sampled_from(TAGS + EXTRA_TAGS)),
-                               min_size=1, max_size=4))
+                               min_size=1, max_size=4), st.sampled_from(ARG_FORMS))
 op_qio = st.tuples(st.just("qio"), IDX, st.lists(IDX, max_size=2),
                    st.sampled_from(["fresh", "fresh", "reuse", "into"]))
 any_op = st.one_of(op_insert, op_insert, op_insert, op_insert, op_insert, op_insert, op_insert,
@@ -1511,9 +1651,13 @@ def resolve_case(mode, names, init, flt, ops, form="iter", final_newline=True):
                 x = ref(x)
                 if x not in names_:
                     names_.append(x)
-            op = ["mquery", op[1], names_]
+            op = ["mquery", op[1], names_] + list(op[3:4])
         elif op[0] == "qio":
             op = ["qio", op[1], list(op[2]), op[3]]
+        elif op[0] in ("choose", "choose_copy"):
+            op = [op[0], op[1], refs(op[2])] + [list(f) for f in op[3:4]]
+        elif op[0] in ("filter_packages", "filter_packages_copy"):
+            op = [op[0], op[1], refs(op[2])]
         elif len(op) == 3:
             op = [op[0], op[1], refs(op[2])]
         elif len(op) == 4:
@@ -1682,10 +1826,11 @@ def machine_phase(shard, nshards, seed, deadline, rec):
         def derive(self, e, op, old):
             return self.apply(lambda i: [op, i], e, old)
 
-        @rule(target=dbs, e=dbs, sel=m_psel, old=m_old,
-              op=st.sampled_from(["choose", "choose_copy", "filter_packages", "filter_packages_copy"]))
-        def select_packages(self, e, op, sel, old):
-            return self.apply(lambda i: [op, i, sel], e, old)
+        @rule(target=dbs, e=dbs, sel=m_psel, old=m_old, how=argf,
+              op=st.sampled_from(["choose", "choose_copy", "choose", "choose_copy",
+                                  "filter_packages", "filter_packages_copy"]))
+        def select_packages(self, e, op, sel, old, how):
+            return self.apply(lambda i: [op, i, sel] + ([list(how)] if op.startswith("choose") else []), e, old)
 
         @rule(target=dbs, e=dbs, sel=st.one_of(subset(universe, 4).map(sorted), keepsel), tsel=m_tsel,
               old=m_old,
@@ -1699,9 +1844,9 @@ def machine_phase(shard, nshards, seed, deadline, rec):
             return self.apply(lambda i: [op, i, tsel], e, old)
 
         @rule(e=dbs, names=st.lists(st.sampled_from(universe), unique=True, min_size=1, max_size=4),
-              old=m_old)
-        def multi_name_queries(self, e, names, old):
-            self.apply(lambda i: ["mquery", i, names], e, old)
+              old=m_old, how=st.sampled_from(ARG_FORMS))
+        def multi_name_queries(self, e, names, old, how):
+            self.apply(lambda i: ["mquery", i, names, how], e, old)
 
         @rule(target=dbs, e=dbs, extras=st.lists(st.integers(0, 7), max_size=2),
               mode=st.sampled_from(["fresh", "fresh", "reuse", "into"]))
@@ -1744,6 +1889,7 @@ def sources(tier):
                 Enum("odd-tags<=2", enum_cases(2, ODD_OPS, ("", OLD), ODD_INIT), ODD_DESC),
                 Enum("repeated-derivations", repeat_cases, REPEAT_DESC),
                 Enum("keep-all-none-all-but-one", keep_cases, KEEP_DESC),
+                Enum("argument-forms", form_cases, FORM_DESC),
                 Hyp("pool-histories", gen_case(12), 400, shards=8)]
     return [Enum("op-alphabet<=3", enum_cases(3, ENUM_OPS_IO, ("", OLD)), EXHAUSTIVE["quick"]),
             Enum("long-texts", big_cases, LONG_DESC),
@@ -1751,6 +1897,7 @@ def sources(tier):
             Enum("odd-tags<=2", enum_cases(2, ODD_OPS, ("", OLD), ODD_INIT), ODD_DESC),
             Enum("repeated-derivations", repeat_cases, REPEAT_DESC),
             Enum("keep-all-none-all-but-one", keep_cases, KEEP_DESC),
+            Enum("argument-forms", form_cases, FORM_DESC),
             Enum("op-alphabet17<=4", enum_cases(4, ENUM_OPS), EXHAUSTIVE["thorough"]),
             Hyp("pool-histories", gen_case(20), 5000, shards=16),
             Custom("state-machine", machine_phase, shards=8)]
